@@ -17,7 +17,99 @@ import (
 	"golang.org/x/tools/go/packages"
 )
 
+// writes mode: lists every assignment / inc-dec / delete whose target is (reached from) a package-level variable
+// outside init functions and outside package-level initialisers, for the packages under dir.
+func writes(dir string, patterns []string) {
+	if len(patterns) == 0 {
+		patterns = []string{"./..."}
+	}
+	cfg := &packages.Config{Mode: packages.NeedName | packages.NeedFiles | packages.NeedSyntax | packages.NeedTypes |
+		packages.NeedTypesInfo | packages.NeedImports | packages.NeedDeps, Dir: dir, Tests: false}
+	pkgs, err := packages.Load(cfg, patterns...)
+	if err != nil {
+		fmt.Println("ERROR", err)
+		os.Exit(1)
+	}
+	var out []string
+	for _, p := range pkgs {
+		for _, e := range p.Errors {
+			fmt.Println("ERROR", e)
+		}
+		if strings.HasSuffix(p.PkgPath, "/cmd") || strings.HasSuffix(p.PkgPath, "/h") {
+			continue
+		}
+		root := func(e ast.Expr) *ast.Ident {
+			for {
+				switch x := e.(type) {
+				case *ast.Ident:
+					return x
+				case *ast.SelectorExpr:
+					e = x.X
+				case *ast.IndexExpr:
+					e = x.X
+				case *ast.StarExpr:
+					e = x.X
+				case *ast.ParenExpr:
+					e = x.X
+				case *ast.SliceExpr:
+					e = x.X
+				default:
+					return nil
+				}
+			}
+		}
+		isPkgVar := func(e ast.Expr) bool {
+			id := root(e)
+			if id == nil {
+				return false
+			}
+			obj := p.TypesInfo.ObjectOf(id)
+			v, ok := obj.(*types.Var)
+			return ok && v.Parent() == p.Types.Scope()
+		}
+		for _, f := range p.Syntax {
+			fname, _ := filepath.Rel(dir, p.Fset.Position(f.Pos()).Filename)
+			for _, d := range f.Decls {
+				fd, ok := d.(*ast.FuncDecl)
+				if !ok || fd.Body == nil || (fd.Name.Name == "init" && fd.Recv == nil) || fd.Name.Name == "VerifDumpTables" {
+					continue
+				}
+				ast.Inspect(fd.Body, func(n ast.Node) bool {
+					switch x := n.(type) {
+					case *ast.AssignStmt:
+						if x.Tok == token.DEFINE {
+							return true
+						}
+						for _, l := range x.Lhs {
+							if isPkgVar(l) {
+								out = append(out, fmt.Sprintf("write %s %s %s", fname, fd.Name.Name, exprString(p.Fset, l)))
+							}
+						}
+					case *ast.IncDecStmt:
+						if isPkgVar(x.X) {
+							out = append(out, fmt.Sprintf("write %s %s %s", fname, fd.Name.Name, exprString(p.Fset, x.X)))
+						}
+					case *ast.CallExpr:
+						if id, ok := x.Fun.(*ast.Ident); ok && id.Name == "delete" && len(x.Args) > 0 && isPkgVar(x.Args[0]) {
+							out = append(out, fmt.Sprintf("write %s %s delete(%s)", fname, fd.Name.Name, exprString(p.Fset, x.Args[0])))
+						}
+					}
+					return true
+				})
+			}
+		}
+	}
+	sort.Strings(out)
+	for _, l := range out {
+		fmt.Println(l)
+	}
+}
+
 func main() {
+	if os.Args[1] == "writes" {
+		writes(os.Args[2], os.Args[3:])
+		return
+	}
 	dir := os.Args[1]
 	cfg := &packages.Config{Mode: packages.NeedName | packages.NeedFiles | packages.NeedSyntax | packages.NeedTypes |
 		packages.NeedTypesInfo | packages.NeedImports | packages.NeedDeps, Dir: dir, Tests: false}
